@@ -17,6 +17,8 @@
 #pragma once
 #include <cstddef>
 #include <cstdint>
+#include <algorithm>
+#include <deque>
 #include <exception>
 #include <functional>
 #include <memory>
@@ -654,6 +656,91 @@ private:
 typedef spin_mutex mutex;
 typedef spin_mutex queuing_mutex;
 typedef spin_mutex speculative_spin_mutex;
+
+// ------------------------------------------------------------------ further API surface (kept simple)
+// Thread-safe containers: every operation is a scheduling point and is bracketed by an internal lock token,
+// so that TSan sees the synchronisation the real containers provide.
+namespace detail_sim {
+struct OpGuard {
+    char *tok;
+    explicit OpGuard(char *t) : tok(t) { sim::Sched::get().yield(); SIM_TSAN_ACQUIRE(tok); }
+    ~OpGuard() { SIM_TSAN_RELEASE(tok); }
+};
+}
+template<class It, class Cmp> void parallel_sort(It first, It last, const Cmp &cmp) { sim::Sched::get().yield(); std::sort(first, last, cmp); }
+template<class It> void parallel_sort(It first, It last) { sim::Sched::get().yield(); std::sort(first, last); }
+template<class C> void parallel_sort(C &c) { parallel_sort(c.begin(), c.end()); }
+template<class C, class Cmp> void parallel_sort(C &c, const Cmp &cmp) { parallel_sort(c.begin(), c.end(), cmp); }
+
+template<class T, class A = std::allocator<T>> class concurrent_queue {
+public:
+    void push(const T &v) { detail_sim::OpGuard g(&tok); q.push_back(v); }
+    template<class... Args> void emplace(Args&&... a) { detail_sim::OpGuard g(&tok); q.emplace_back(std::forward<Args>(a)...); }
+    bool try_pop(T &out) { detail_sim::OpGuard g(&tok); if (q.empty()) return false; out = q.front(); q.pop_front(); return true; }
+    bool empty() const { return q.empty(); }
+    size_t unsafe_size() const { return q.size(); }
+    void clear() { q.clear(); }
+private:
+    std::deque<T> q; mutable char tok = 0;
+};
+template<class T, class A = std::allocator<T>> class concurrent_bounded_queue : public concurrent_queue<T, A> {
+public:
+    void pop(T &out) { while (!this->try_pop(out)) { if (!sim::Sched::get().yield_other()) throw sim::SimAbort(); } }
+    size_t size() const { return this->unsafe_size(); }
+};
+template<class T, class Cmp = std::less<T>, class A = std::allocator<T>> class concurrent_priority_queue {
+public:
+    void push(const T &v) { detail_sim::OpGuard g(&tok); h.push_back(v); std::push_heap(h.begin(), h.end(), cmp); }
+    bool try_pop(T &out) { detail_sim::OpGuard g(&tok); if (h.empty()) return false; std::pop_heap(h.begin(), h.end(), cmp); out = h.back(); h.pop_back(); return true; }
+    bool empty() const { return h.empty(); }
+    size_t size() const { return h.size(); }
+private:
+    std::vector<T> h; Cmp cmp; mutable char tok = 0;
+};
+template<class K, class V, class H = std::hash<K>, class E = std::equal_to<K>, class A = std::allocator<std::pair<const K, V>>>
+class concurrent_unordered_map {
+    typedef std::map<K, V> M;
+public:
+    typedef typename M::iterator iterator; typedef typename M::const_iterator const_iterator; typedef std::pair<const K, V> value_type;
+    std::pair<iterator, bool> insert(const value_type &v) { detail_sim::OpGuard g(&tok); return m.insert(v); }
+    template<class... Args> std::pair<iterator, bool> emplace(Args&&... a) { detail_sim::OpGuard g(&tok); return m.emplace(std::forward<Args>(a)...); }
+    V& operator[](const K &k) { detail_sim::OpGuard g(&tok); return m[k]; }
+    V& at(const K &k) { detail_sim::OpGuard g(&tok); return m.at(k); }
+    const V& at(const K &k) const { return m.at(k); }
+    iterator find(const K &k) { detail_sim::OpGuard g(&tok); return m.find(k); }
+    const_iterator find(const K &k) const { return m.find(k); }
+    size_t count(const K &k) const { return m.count(k); }
+    iterator begin() { return m.begin(); } iterator end() { return m.end(); }
+    const_iterator begin() const { return m.begin(); } const_iterator end() const { return m.end(); }
+    size_t size() const { return m.size(); } bool empty() const { return m.empty(); }
+    void clear() { m.clear(); }
+private:
+    M m; mutable char tok = 0;     // ordered inside: iteration order must not depend on hashing of pointers
+};
+template<class K, class H = std::hash<K>, class E = std::equal_to<K>, class A = std::allocator<K>>
+class concurrent_unordered_set {
+    typedef std::set<K> S;
+public:
+    typedef typename S::iterator iterator; typedef typename S::const_iterator const_iterator;
+    std::pair<iterator, bool> insert(const K &k) { detail_sim::OpGuard g(&tok); return s.insert(k); }
+    iterator find(const K &k) { detail_sim::OpGuard g(&tok); return s.find(k); }
+    const_iterator find(const K &k) const { return s.find(k); }
+    size_t count(const K &k) const { return s.count(k); }
+    iterator begin() { return s.begin(); } iterator end() { return s.end(); }
+    const_iterator begin() const { return s.begin(); } const_iterator end() const { return s.end(); }
+    size_t size() const { return s.size(); } bool empty() const { return s.empty(); }
+    void clear() { s.clear(); }
+private:
+    S s; mutable char tok = 0;
+};
+template<class K, class C = std::less<K>, class A = std::allocator<K>> using concurrent_set = concurrent_unordered_set<K>;
+template<class K, class V, class C = std::less<K>, class A = std::allocator<std::pair<const K, V>>> using concurrent_map = concurrent_unordered_map<K, V>;
+template<class T> using cache_aligned_allocator = std::allocator<T>;
+template<class T> using scalable_allocator = std::allocator<T>;
+template<class T> using tbb_allocator = std::allocator<T>;
+typedef spin_mutex spin_rw_mutex;
+typedef spin_mutex rw_mutex;
+typedef spin_mutex null_mutex;
 
 class tick_count {
 public:
